@@ -43,6 +43,15 @@ Example C13_fixed_zero_order_symbol : wf w2_toks w2_dc = true /\ excluded w2_tok
   strip_bonding_descriptors fo0 (render (decorate w2_toks w2_dc)) = Ok (S "C", [(0, [S "$0"])], [], []).
 Proof. exact fixed_zero. Qed.
 
+(** ':' written as the order symbol of a descriptor is order 1.5 (text "1.5") and is removed from the
+    clean text, after an atom and for a leading descriptor; all six bond symbols are in the domain *)
+Example C13_arom_order_symbol :
+  wf w4_toks w4_dc = true /\ excluded w4_toks w4_dc = false /\ to_string (render (decorate w4_toks w4_dc)) = "C:[$a]c"%string /\
+  strip_bonding_descriptors fo0 (render (decorate w4_toks w4_dc)) = Ok (S "Cc", [(0, [S "$a1.5"])], [], []) /\
+  wf w5_toks w5_dc = true /\ to_string (render (decorate w5_toks w5_dc)) = "[$]:c"%string /\
+  strip_bonding_descriptors fo0 (render (decorate w5_toks w5_dc)) = Ok (S "c", [(0, [S "$1.5"])], [], []).
+Proof. exact arom_order. Qed.
+
 (** refutation of the full statement *)
 Theorem C13_refuted_coarse_multiplier :          (* [<][#PEO]|4[>] *)
   wf w3_toks w3_dc = true /\ class_of (decorate w3_toks w3_dc) = 3 /\
@@ -72,7 +81,7 @@ Example C13_stages_nonvacuous :
 Proof. exact stages_nonvacuous. Qed.
 
 (** bounded exhaustive (vm_compute), independent of the induction: all 813616 item lists of length
-    <= 5 over a 15-item alphabet, of which 48420 are in the domain (no multiplier in the alphabet) *)
+    <= 5 over a 15-item alphabet (with the order symbols = # . and :), of which 48420 are in the domain (no multiplier in the alphabet) *)
 Theorem C13_small : forall items, length items <= small_bound -> (forall i, In i items -> In i small_alphabet) ->
   wf_items ZStart 0 items = true -> excluded_items items = false ->
   strip_bonding_descriptors fo0 (render items) = spec_items fo0 items.
